@@ -98,7 +98,9 @@ impl PayloadBuffer {
             match Pin::new(&mut self.stream).poll_next(cx) {
                 Poll::Ready(Some(Ok(data))) => {
                     self.pending = Some(data);
-                    appended |= self.append_pending()?;
+                    self.append_pending()?;
+                    // an empty chunk is progress too: the stream has to be polled again
+                    appended = true;
 
                     if self.pending.is_some() || self.buf.len() >= self.buffer_limit {
                         if appended {
